@@ -31,13 +31,26 @@ TARGETS = ['PyTough.Props.C09', 'drv_c09']
 THEOREMS = ['Props.C09.' + t for t in [
     'reversed_connection_same_phys', 'reorder_preserves_phys', 'rename_preserves_phys', 'compose_preserves_phys',
     'minc_volume_split', 'minc_levels_spec', 'minc_spec', 'minc_spec_default_selection', 'minc_keeps_total_volume',
-    'minc_keeps_inv', 'embed_conserves_volume']]
+    'minc_keeps_inv', 'embed_conserves_volume',
+    'reorder_any_permutation_any_reversal_partial', 'history_of_explicit_steps_preserves_phys',
+    'rename_then_file_names_preserves_phys', 'canonical_names_survive_file',
+    'minc_counts', 'minc_leaves_other_connections', 'minc_group_volumes_normalised']]
 LEVEL_TEXT = ('Proof: for the executable heap model of t2grid, reorder (any block permutation, any connection permutation with any subset written '
               'reversed) and rename_blocks (any map keeping names distinct) and all their compositions leave the physical network PhysEq-unchanged '
               '(per block object: volume, rock type, centre; per connection: each block with its own distance, area, permeability direction, gravity cosine '
               'oriented between the same two blocks) and the grid consistent; the MINC level loop creates exactly one block per level with volume V*f_k and the '
               'chain block -> matrix 1 -> ... with area V*a and distances (d[m-1], d[m]); V*f_0 + sum V*f_k = V for fractions normalised by a non-zero sum; '
-              'embed conserves total volume. Tied to /repo by correspondence after every operation and an independent physical-signature oracle incl. a data-file write/read leg.')
+              'embed conserves total volume. '
+              'reorder_any_permutation_any_reversal_partial: every explicit permutation of the block objects and of the connection objects with every reversal subset is within the '
+              'precondition of reorder and keeps the network (partial: a reversed connection must not also exist as a second object under the swapped names). '
+              'history_of_explicit_steps_preserves_phys: a history of reorder/rename steps (any length, compose_preserves_phys is by induction over the list) extended by such an explicit step stays within the precondition and keeps the network. '
+              'rename_then_file_names_preserves_phys: after a rename, the trip of the block names through a data file (unfix_blockname then fix_blockname, as a rename map) keeps the network whenever the names that come back are distinct. '
+              'canonical_names_survive_file: names of the canonical five-character form come back unchanged, so that trip is always legal for them. '
+              'minc_counts: minc keeps the original blocks and connections at the front of the lists and appends exactly P*(L-1) blocks and P*(L-1) connections (P processed selected blocks, L fractions). '
+              'minc_leaves_other_connections: every existing connection object keeps all its data, every new connection ends in a new matrix block (so connections between original blocks are the old ones, not rescaled), and no new connection touches an unprocessed block. '
+              'minc_group_volumes_normalised: the continua of a processed block have volumes V*f_k/sum(f) for any requested fractions, summing to 1 or not. '
+              'Not proved: the numeric rounding of the ELEME/CONNE fields in the file leg (oracle only); rock type and centre of the blocks after minc (model/correspondence only); the minc() geometry numbers a, d (parameters). '
+              'Tied to /repo by correspondence after every operation and an independent physical-signature oracle incl. a data-file write/read leg.')
 LEVEL_NOTE = ('minc_spec is a theorem about the operation itself (selected blocks split V*f_k and chained, unselected and boundary blocks untouched, position indices returned); '
               'The proximity inversion (a, d) is a parameter. Data-file leg: oracle only. Doubles vs Q: 1e-12 relative for MINC/embed.')
 TECHNIQUE = 'Lean 4 proof (physical signature invariant under reorder/rename, by induction over the connection-name loop and over compositions) about the executable heap model + differential correspondence with the real t2grid'
